@@ -65,6 +65,10 @@ CLAIMED = {
    "Every structural shape S(d,w) x 4 coordinate types (valid cell-lattice instantiation with every vertex tagged Z=1000+i, M=2000+i so a misplaced payload is visible) and every collection built from 1..3 members constructed with every assignment of the 4 coordinate types: a structural walker asserts one coordinate type on the root and on every member / ring / point / sequence reachable through every accessor; constructors yield the common subset; ForceCoordinatesType x4 and Force2D are compared with a reference (dropped gone, added zero, XY bit-identical, also on empties); Reverse, ForceCW/CCW, SnapToGrid, TransformXY, Densify, Dump, DumpCoordinates, DumpRings, Coordinates, AsMulti*, WKB/WKT keep the type and carry each vertex's Z/M with its XY; Centroid, ConvexHull, PointOnSurface, Envelope, rotated rectangle and the set operations return XY.",
    "Trust: refcodec/node.go walker and forceNode in checks/c16.go. The operation list is explicit (the one in the property), not discovered by reflection.",
    "bounded-exhaustive enumeration of shapes x coordinate types x operations on the real code against a structural reference", "4/C16"),
+ "C17": ("model_checking",
+   "Valid lineal and areal lattice geometries (every vertex sequence of length <=4 on 3x3 with >=2 distinct points incl. repeated consecutive vertices, closed rings, simple polygons, polygons with holes and mixed ring windings, multis and collections, Z/M tagged and float-image variants) x parameters enumerated from the property: Densify distances relative to the diameter; Simplify thresholds 0, every vertex-to-chord distance and its two ulp neighbours, the diameter; InterpolatePoint fractions -1, 0, 1, 2, +-Inf, k/8 and every cumulative-length breakpoint +-1 ulp; InterpolateEvenlySpacedPoints counts -1..50; SnapToGrid places -320..320 x 14 ordinates x sign; Reverse, ForceCW, ForceCCW. Each contract clause is checked with exact rationals / 200-bit floats (originals kept in order with payload, inserted points on segments, gaps, dropped vertices within t of the bracketing line, valid-or-error, finite interpolation at the exact arc position, oddness, half-step bound, finiteness and idempotence of snapping, involution, point-set and validity preservation, IsCW/IsCCW and idempotence).",
+   "Trust: exact/ and math/big. Tolerances: 1e-11 x magnitude for interpolated positions, 64 ulp of the magnitude for densify gaps.",
+   "bounded-exhaustive enumeration of inputs x parameters on the real code against exact-arithmetic contract oracles", "4/C17"),
 }
 
 PENDING = {}
